@@ -20,7 +20,7 @@ impl<'a> Gen<'a> {
     }
     /// case count for the tier; the thorough figures are scaled by 2 (every thorough run stays within minutes)
     pub fn n(&self, quick: usize, thorough: usize) -> usize {
-        if self.thorough { thorough * 2 } else { quick }
+        if self.thorough { thorough * 2 } else { quick * 2 }
     }
     pub fn n_exact(&self, quick: usize, thorough: usize) -> usize {
         if self.thorough { thorough } else { quick }
@@ -852,6 +852,21 @@ fn c01(g: &mut Gen) {
             });
         }
     }
+    // every length of the list-like arguments: message types 0..30, vendor field 0..7, routing entries 0..7
+    for n in 0..=30usize {
+        let cfg = gen_cfg(&mut g.rng);
+        g.case("lists", &cfg, |s, r| {
+            let mut calls = vec![Call { req: false, id: 5, nums: vec![0, r.addr() as u32], lists: vec![r.cbytes(n)] }];
+            if n <= 7 {
+                calls.push(Call { req: false, id: 6, nums: vec![0, r.addr() as u32, r.cbyte() as u32], lists: vec![r.cbytes(n)] });
+                calls.push(Call { req: true, id: 9, nums: vec![r.addr() as u32], lists: (0..n).map(|_| r.bytes(4)).collect() });
+            }
+            for c in calls {
+                let buf = buf_for(r, &c);
+                if let Obs::Enc(Some(n), out) = s.op(enc_op(&c, buf)) { s.op(Op::Decode(out[..n].to_vec())); }
+            }
+        });
+    }
     // message bodies up to the SMBus limit
     let reps = g.n(1, 4);
     for total in (12..=259usize).filter(|t| reps > 1 || t % 3 == 0 || *t > 250) {
@@ -1042,6 +1057,28 @@ fn c13(g: &mut Gen) {
             let p = request(r.below(128) as u8, 0, 2, &[], r);
             let b = poison(r, 64, 1); s.op(Op::Process(p, b));
         });
+    }
+    // re-assignment of a value one half already holds, after the halves were made to differ through an accessor
+    for first_op in 0..2u8 {
+        for second_op in 0..2u8 {
+            for half in [true, false] {
+                for same in [true, false] {
+                    let cfg = gen_cfg(&mut g.rng);
+                    g.case("reassign", &cfg, |s, r| {
+                        let x = 1 + r.below(254) as u8;
+                        let y = loop { let y = 1 + r.below(254) as u8; if y != x { break y; } };
+                        let p = request(r.below(128) as u8, 0, 1, &[first_op, x], r);
+                        let b = pbuf(r, 64, 0); s.op(Op::Process(p, b));
+                        s.op(Op::SetEid(half, y));
+                        // assign again: the value the untouched half still holds, or the accessor's value
+                        let v = if same { x } else { y };
+                        let p = request(r.below(128) as u8, r.below(32) as u8, 1, &[second_op, v], r);
+                        let b = pbuf(r, 64, 0); s.op(Op::Process(p, b));
+                        let q = request(9, 0, 2, &[], r); let b = pbuf(r, 64, 0); s.op(Op::Process(q, b));
+                    });
+                }
+            }
+        }
     }
     // every EID 0x01..0xFE through both assigning operations
     let cfg = gen_cfg(&mut g.rng);
